@@ -470,13 +470,27 @@ where
     rec::<F>(ctx, n, &alpha, &rms, &last, 0, depth, &mut Vec::new(), count);
 }
 
+/// A copy of the detector obtained the other way `Clone` offers: `clone_from` into a detector that
+/// already has a history of its own (a different window content and running sum).
+fn copy_into_used<F: RF>(rms: &Rms<F, Vec<F::Float>>, f: F) -> Rms<F, Vec<F::Float>>
+where
+    F::Float: Copy + Debug,
+{
+    let mut used = rms.clone();
+    used.next(f);
+    used.next(f);
+    used.clone_from(rms);
+    used
+}
+
 /// one tolerant step: `last` already contains the new frame; every channel is judged
 fn rough_step<F: RF>(n: usize, rms: &mut Rms<F, Vec<F::Float>>, last: &VecDeque<Vec<f64>>, f: F, t: usize) -> Option<Bad>
 where
     F::Float: Copy + Debug,
 {
     // a panic in the detector (an overflow check, a debug assertion) on a finite input is a violation
-    let (ms_all, out_all) = match catch(|| (F::fl(rms.clone().next_squared(f)), F::fl(rms.next(f)))) {
+    // (the copy is taken through clone() on even steps and through clone_from() on odd ones)
+    let (ms_all, out_all) = match catch(|| (F::fl(if t % 2 == 0 { rms.clone() } else { copy_into_used(rms, f) }.next_squared(f)), F::fl(rms.next(f)))) {
         Ok(x) => x,
         Err(p) => return Some(("rms.panic".into(), format!("{} N={n} step {t}: panicked: {p}", F::NAME))),
     };
